@@ -137,3 +137,53 @@ example : ((kvAt Specter.C01.ring3 3 0 "k" 3 (.put "v")).1.get 5).map (·.store.
 example : ((kvAt Specter.C01.ring3 3 0 "k" 3 (.put "v")).1.get 0).map (·.store.length) = some 0 := by decide
 
 end Specter.C03
+
+namespace Specter.C03
+open Specter.Ring Specter.C01 Specter.C09
+
+/-! ### executable forms of the hypotheses (non-vacuity, and usable by drivers) -/
+
+def quiescentB (net : Net) : Bool :=
+  net.all fun q =>
+    if memB net q.1 then
+      match net.get q.1 with
+      | some nd => nd.state == .active && !nd.crashed &&
+          (nd.surrogate.isNone || (nd.surrogate == nd.pred && nd.pred != some q.1))
+      | none => false
+    else true
+
+theorem quiescent_of_quiescentB (net : Net) (h : quiescentB net = true) : Quiescent net := by
+  unfold quiescentB at h
+  rw [List.all_eq_true] at h
+  have key : ∀ n nd, net.get n = some nd → checkNodeState nd false = none →
+      nd.state = .active ∧ nd.crashed = false ∧ (nd.surrogate = none ∨ (nd.surrogate = nd.pred ∧ nd.pred ≠ some n)) := by
+    intro n nd hg hc
+    have := h _ (get_mem net n nd hg)
+    have hmb : memB net n = true := (memB_iff net n).mpr ⟨nd, hg, hc⟩
+    simp only [hmb, if_true, hg, Bool.and_eq_true, Bool.or_eq_true, beq_iff_eq, Bool.not_eq_true',
+      Option.isNone_iff_eq_none, bne_iff_ne, ne_eq] at this
+    exact ⟨this.1.1, this.1.2, this.2⟩
+  exact ⟨fun n nd hg hc => ⟨(key n nd hg hc).1, (key n nd hg hc).2.1⟩, fun n nd hg hc => (key n nd hg hc).2.2⟩
+
+def lookupsCompleteB (net : Net) (key : Nat) : Bool :=
+  net.all fun q => !memB net q.1 || (match findSucc net FUEL q.1 key with | .found _ => true | .err _ => false)
+
+theorem lookupsComplete_of_B (net : Net) (key : Nat) (h : lookupsCompleteB net key = true) :
+    LookupsComplete net key := by
+  intro m hm
+  obtain ⟨nd, hg, hc⟩ := hm
+  unfold lookupsCompleteB at h
+  rw [List.all_eq_true] at h
+  have := h _ (get_mem net m nd hg)
+  have hmb : memB net m = true := (memB_iff net m).mpr ⟨nd, hg, hc⟩
+  simp only [hmb, Bool.not_true, Bool.false_or] at this
+  cases hf : findSucc net FUEL m key with
+  | found o => exact ⟨o, rfl⟩
+  | err e => simp [hf] at this
+
+/-- the hypotheses of `kv_at_owner` hold for the three-node ring of C01 (wrap-around ids, a departed node
+still present) and a key hashing to 3 -/
+example : Stable Specter.C01.ring3 ∧ Quiescent Specter.C01.ring3 ∧ LookupsComplete Specter.C01.ring3 3 :=
+  ⟨stable_of_stableB _ (by decide), quiescent_of_quiescentB _ (by decide), lookupsComplete_of_B _ _ (by decide)⟩
+
+end Specter.C03
